@@ -31,7 +31,7 @@ func (c19) ID() string    { return "C19" }
 func (c19) Level() string { return "model_checking" }
 func (c19) Env() []string { return []string{"GOMAXPROCS=1"} }
 func (c19) Rule() string {
-	return "(a) every ordered pair (thorough: triple) of corpus inputs loaded by concurrent controlled threads whose hand-offs are hidden from ThreadSanitizer, so the loads are concurrent in its happens-before relation in every serial order; results compared with the same load run alone; directed schedules that bring the statements of two loads on each package-level variable next to each other (every variable both loads touch x its first 2 (4) occurrences); every input also loaded by two threads sharing one ConfigDetails value (with and without the project-name option). (b) WithServicesTransform / WithImagesResolved on projects of 0..4 services x error injection at every subset of <=2 services x every schedule up to the preemption bound and every ready select branch of the collector, with deadlock detection, thread-termination and result monitors, ThreadSanitizer active. (c) the dependency-ordered traversal on every DAG of <=3 services x direction x limit {0,1,2} x {no, one} failing visit, all schedules within 2 preemptions (deadlock, leak, race; ordering is C13's). state = distinct happens-before prefix expanded; transition = executed synchronisation step"
+	return "(a) every ordered pair (thorough: triple) of corpus inputs loaded by concurrent controlled threads whose hand-offs are hidden from ThreadSanitizer, so the loads are concurrent in its happens-before relation in every serial order; results compared with the same load run alone; for every input loaded twice (thorough: every pair) the same schedules again with every single execution in a fresh process; directed schedules that bring the statements of two loads on each package-level variable next to each other (every variable both loads touch x its first 2 (4) occurrences); every input also loaded by two threads sharing one ConfigDetails value (with and without the project-name option). (b) WithServicesTransform / WithImagesResolved on projects of 0..4 services x error injection at every subset of <=2 services x every schedule up to the preemption bound and every ready select branch of the collector, with deadlock detection, thread-termination and result monitors, ThreadSanitizer active. (c) the dependency-ordered traversal on every DAG of <=3 services x direction x limit {0,1,2} x {no, one} failing visit, all schedules within 2 preemptions (deadlock, leak, race; ordering is C13's). state = distinct happens-before prefix expanded; transition = executed synchronisation step"
 }
 func (c19) Assumptions() []string {
 	return []string{
@@ -489,10 +489,116 @@ func c19loads(c *core.Ctx) {
 		}
 		return core.Outcome{Class: id, Sample: sample}
 	}
+	// runOnce (subprocess side of coldx): one execution under the schedule C19_PREFIX, as the first thing this process does
+	runOnce := func(id string, ns []string) core.Outcome {
+		var prefix []int
+		json.Unmarshal([]byte(os.Getenv("C19_PREFIX")), &prefix)
+		results := make([]loadRes, len(ns))
+		sc := vsched.RunOnce(prefix, 100000, false, func() {
+			var wg vsync.WaitGroup
+			wg.Add(len(ns))
+			for i, n := range ns {
+				i, n := i, n
+				vsched.Go(func() {
+					vsched.Quiet(func() { results[i] = doLoad(inputs[n], filepath.Join(base, n)) })
+					wg.Done()
+				})
+			}
+			wg.Wait()
+		})
+		pts, _ := json.Marshal(sc.Points)
+		fmt.Fprintf(os.Stderr, "C19PTS %s\n", pts)
+		if sc.Fail != nil {
+			return core.Outcome{Class: id, NoRecheck: true, Viol: &core.Violation{Key: "concurrent-load:" + sc.Fail.Kind, Msg: sc.Fail.Msg}}
+		}
+		for i, n := range ns {
+			if d := results[i].digest(); d != expect[n] {
+				return core.Outcome{Class: id, NoRecheck: true, Viol: &core.Violation{Key: "concurrent-load:result-differs",
+					Msg: fmt.Sprintf("load of %q concurrent with %v (schedule %v, from process start) differs from the load alone (%s vs %s)", n, ns, prefix, d, expect[n])}}
+			}
+		}
+		if reps := NewRaceReports(); len(reps) > 0 {
+			return core.Outcome{Class: id, NoRecheck: true, Viol: &core.Violation{Key: "data-race@" + RaceSite(reps[0]),
+				Msg: fmt.Sprintf("concurrent loads of %v under schedule %v, as the first thing the process does: ThreadSanitizer reports a data race", ns, prefix), Detail: reps[0]}}
+		}
+		return core.Outcome{Class: id}
+	}
+	// coldx (parent side): the depth-first search over schedules within 2 preemptions is driven from here, but every
+	// single execution runs in a fresh process - first-use effects (lazily built package state) exist in every schedule,
+	// not only in the first one explored
+	coldExplore := func(id string, ns []string) core.Outcome {
+		join := strings.Join(ns, "+")
+		exp := map[string]string{}
+		for _, n := range ns {
+			exp[n] = expect[n]
+		}
+		eb, _ := json.Marshal(exp)
+		const bound, maxExec = 2, 160
+		execs := 0
+		capped := false
+		var dfs func(prefix []int) *core.Violation
+		dfs = func(prefix []int) *core.Violation {
+			if execs >= maxExec {
+				capped = true
+				return nil
+			}
+			execs++
+			c.Heartbeat()
+			pb, _ := json.Marshal(prefix)
+			viols, diag := core.RunCase("C19", c.Tier, c.Seed, "coldrun/"+join, []string{"C19_COLD_BASE=" + base, "C19_EXPECT=" + string(eb), "C19_PREFIX=" + string(pb)})
+			if len(viols) > 0 {
+				return viols[0]
+			}
+			var pts []vsched.ChoicePoint
+			for _, line := range strings.Split(diag, "\n") {
+				if strings.HasPrefix(line, "C19PTS ") {
+					json.Unmarshal([]byte(strings.TrimPrefix(line, "C19PTS ")), &pts)
+				}
+			}
+			for i := len(prefix); i < len(pts); i++ {
+				p := pts[i]
+				for alt := 1; alt < p.N; alt++ {
+					cost := p.Pre
+					if !p.Select && p.CurAlive {
+						cost++
+					}
+					if cost > bound {
+						continue
+					}
+					np := make([]int, i+1)
+					for k := 0; k < i; k++ {
+						np[k] = pts[k].Chosen
+					}
+					np[i] = alt
+					if v := dfs(np); v != nil {
+						return v
+					}
+				}
+			}
+			return nil
+		}
+		v := dfs(nil)
+		c.Count("cold_processes", int64(execs))
+		c.Count("traces_validated_against_impl", int64(execs))
+		if capped {
+			c.Note(fmt.Sprintf("coldx/%s: stopped after %d fresh-process executions (cap)", join, maxExec))
+		}
+		if v != nil {
+			return core.Outcome{Class: id, NoRecheck: true, Viol: v}
+		}
+		return core.Outcome{Class: id, Sample: map[string]any{"concurrent_loads": ns, "fresh_process_executions": execs, "capped": capped}}
+	}
 	group := func(ns []string) {
 		join := strings.Join(ns, "+")
+		if coldBase != "" && os.Getenv("C19_PREFIX") != "" {
+			c.Do("coldrun/"+join, func() core.Outcome { return runOnce("coldrun/"+join, ns) })
+			return
+		}
 		if coldBase == "" {
 			c.Do("loads/"+join, func() core.Outcome { return explore("loads/"+join, ns) })
+			if !c.Quick() || (len(ns) == 2 && ns[0] == ns[1]) {
+				c.Do("coldx/"+join, func() core.Outcome { return coldExplore("coldx/"+join, ns) })
+			}
 		}
 		c.Do("cold/"+join, func() core.Outcome {
 			if coldBase != "" {
